@@ -69,21 +69,21 @@ CHECKS = {
         "DESIGN.md section 3, C06",
     ),
     "C08": (
-        "structural extraction + abstract interpretation of one generic scan iteration (path enumeration)",
+        "structural extraction + abstract interpretation of one generic scan iteration (path enumeration); shape-independent refutation: abstract interpretation of compact on small lists of symbolic cells",
         "compact's structure (sorted duplicate-free copy, pass loop, index scan) is extracted from the ast; one generic iteration of the scan body is interpreted abstractly for every resolution, with the current cell = generic child first + stride*A of a generic parent. Each path is summarised as (emitted element, index advance, flag, path condition). Decided: every path either copies the cell (+1) or emits exactly cell_to_parent(cell) and advances by the group size, and the merge path is guarded by: sibling position 0, equality of entries i+1..i+k-1 with the REAL sibling ids of the layout (from the summarised cell_to_children family), index window in range; world-cell entries are copied; the argument is never mutated. This is the local fact that makes coverage invariant for every input list, order and duplication.",
-        _CODEC_NOTE + " List entries are valid cell ids.",
+        _CODEC_NOTE + " List entries are valid cell ids. C08.7: when compact has been restructured the structural obligations are undecided; the witness search then interprets the function itself on about twenty list shapes over a symbolic family (complete / incomplete groups, duplicates, overlaps, cascades) and reports a list whose covered region changes. Scenarios that pass prove nothing.",
         "DESIGN.md section 3, C08",
     ),
     "C09": (
-        "structural rules + order model decided on extracted id forms (monotone parent map, parent within children span)",
+        "structural rules + order model decided on extracted id forms (monotone parent map, parent within children span); shape-independent refutation: abstract interpretation of compact on small lists of symbolic cells",
         "Decides the conditions that make the sorted-scan compaction canonical: working list duplicate-free and sorted (by the key function in use) before the scan; a group at the tail is merged; passes repeat until no change; the only rewriting step is exact (the C08 obligations, as premise C09.7); and the stated belief 'sort order is hierarchical order': for every level the parent map is a monotone function of the sort key (C09.4) and a parent's key lies within its children's key span (C09.5), decided on the id forms for all faces/segments/positions at once. When the order argument fails, a concrete interleaved antichain is searched on the finite face/segment grid of the extracted forms and reported as the violating input (this is how the res-0/res-1 coding defect was found before it was repaired).",
-        _CODEC_NOTE + " The input is an antichain of valid ids (the property's precondition).",
+        _CODEC_NOTE + " The input is an antichain of valid ids (the property's precondition). C09.8: witness search on list shapes as for C08.7, comparing the returned set with the canonical antichain.",
         "DESIGN.md section 3, C09",
     ),
     "C10": (
-        "structural extraction + inductive-invariant check by abstract interpretation of generic loop iterations",
+        "structural extraction + inductive-invariant check by abstract interpretation of generic loop iterations; shape-independent refutation: abstract interpretation of uncompact on small lists of symbolic cells",
         "uncompact's two-pass shape is extracted; one generic iteration of each pass is interpreted for every pair (cell resolution, target) in [-1,30]^2: finer-than-target cells raise in the sizing pass on every path, before the result exists; sizing adds s(r,t); the filling pass writes exactly the block offset..offset+s-1 with the summarised cell_to_children(cell, target) family (or the cell itself), all of resolution t, and advances the offset by the same s; the allocation length is the accumulated size; both passes iterate the argument itself in order; the argument is never mutated. C10.6: neither the list cell_to_children hands over nor the result of uncompact is a shared (memoised / module-level) object.",
-        _CODEC_NOTE + " List entries are valid cell ids.",
+        _CODEC_NOTE + " List entries are valid cell ids. C10.7: witness search on list shapes (order, repeats, three resolutions interleaved, targets that must raise), compared position by position with the concatenated cell_to_children families.",
         "DESIGN.md section 3, C10",
     ),
     "C20": (
